@@ -11,6 +11,7 @@ import (
 	"math/big"
 
 	"github.com/idena-network/idena-go/blockchain/attachments"
+	"github.com/idena-network/idena-go/blockchain/fee"
 	"github.com/idena-network/idena-go/blockchain/types"
 	"github.com/idena-network/idena-go/common"
 	"github.com/idena-network/idena-go/vm/embedded"
@@ -95,8 +96,172 @@ func (h *History) transferAmount(c *ContractInfo, k int) (*big.Int, string) {
 }
 
 // OfferContractTxs submits this block's contract transactions (called by OfferTxs in the None period when
-// HistoryOpts.Contracts is set; may also be called directly).
+// HistoryOpts.Contracts is set; may also be called directly): one action, or a burst of 2-4 actions of (mostly)
+// different senders, and now and then a deliberate pair "a call that fails after the contract moved coins (its gas limit
+// ends inside / right after env.Send), then calls that succeed" for the same block.
 func (h *History) OfferContractTxs(b int) {
+	k := 1
+	if h.R.Intn(3) == 0 {
+		k = 2 + h.R.Intn(3)
+		h.Stats["contract:burst"]++
+	}
+	for j := 0; j < k; j++ {
+		h.contractAction(b)
+	}
+	if h.R.Intn(3) == 0 {
+		h.offerFailThenSucceed(b)
+	}
+}
+
+// gasUsedBy runs tx (signed by key i with a generous max fee) through the real applyTxOnState on a check state and
+// returns the gas the contract used; false when it cannot be applied now or does not succeed.
+func (h *History) gasUsedBy(i int, tx *types.Transaction) (used uint64, ok bool) {
+	n := h.N
+	if len(n.Pool.GetPendingByAddress(h.W.Addrs[i])) != 0 {
+		return 0, false
+	}
+	cp := *tx
+	cp.MaxFee = new(big.Int).Mul(n.App.State.FeePerGas(), big.NewInt(400000))
+	stx := h.S.Sign(n, i, &cp)
+	chk, err := n.App.ForCheck(n.Chain.Head.Height())
+	if err != nil {
+		return 0, false
+	}
+	defer func() {
+		if recover() != nil {
+			used, ok = 0, false
+		}
+	}()
+	_, rc, err := n.Chain.FxApplyTx(chk, n.Chain.Head, stx)
+	if err != nil || rc == nil || !rc.Success {
+		return 0, false
+	}
+	return rc.GasUsed, true
+}
+
+// tightMaxFee sets tx.MaxFee so that exactly `gas` units are left for the contract (getGasLimit, blockchain.go:1769).
+func (h *History) tightMaxFee(i int, tx *types.Transaction, gas uint64) {
+	n := h.N
+	fpg := n.App.State.FeePerGas()
+	tx.MaxFee = new(big.Int).Mul(fpg, big.NewInt(400000))
+	for it := 0; it < 3; it++ {
+		cp := *tx
+		stx := h.S.Sign(n, i, &cp)
+		f := fee.CalculateFee(n.App.ValidatorsCache.NetworkSize(), fpg, stx)
+		tx.MaxFee = new(big.Int).Add(f, new(big.Int).Mul(fpg, new(big.Int).SetUint64(gas)))
+	}
+}
+
+// offerFailThenSucceed: see OfferContractTxs.
+func (h *History) offerFailThenSucceed(b int) {
+	n, r, w := h.N, h.R, h.W
+	fpg := n.App.State.FeePerGas()
+	if common.ZeroOrNil(fpg) || len(w.Keys) < 4 {
+		return
+	}
+	nU := len(w.Keys) - 1
+	var cands []*ContractInfo
+	for _, c := range h.liveContracts("") {
+		if n.App.State.GetBalance(c.Addr).Cmp(big.NewInt(1000)) < 0 {
+			continue
+		}
+		if c.Kind == "timelock" && !c.Locked || c.Kind == "multisig" && c.pendAmt != nil && len(c.Voters) >= c.Max {
+			cands = append(cands, c)
+		}
+	}
+	if len(cands) == 0 {
+		return
+	}
+	c := cands[r.Intn(len(cands))]
+	x := c.Addr
+	bal := n.App.State.GetBalance(c.Addr)
+	var failing *types.Transaction
+	caller, slack := c.Owner, 30
+	var what string
+	if c.Kind == "timelock" {
+		dest, dn := h.transferDest(c, caller, r.Intn(6), b)
+		amt := new(big.Int).Div(bal, big.NewInt(int64(3+r.Intn(5))))
+		p, _ := attachments.CreateCallContractAttachment("transfer", dest.Bytes(), amt.Bytes()).ToBytes()
+		failing = &types.Transaction{Type: types.CallContractTx, To: &x, Amount: Dna(int64(1 + r.Intn(40))), Payload: p}
+		what = "timelock.transfer:" + dn
+	} else {
+		caller, slack = 1+r.Intn(nU), 80
+		p, _ := attachments.CreateCallContractAttachment("push", c.pendDest.Bytes(), c.pendAmt.Bytes()).ToBytes()
+		failing = &types.Transaction{Type: types.CallContractTx, To: &x, Payload: p}
+		if r.Intn(2) == 0 {
+			failing.Amount = Dna(int64(1 + r.Intn(40)))
+		}
+		what = "multisig.push:" + c.pendName
+	}
+	if n.App.State.GetBalance(w.Addrs[caller]).Cmp(Dna(500)) < 0 {
+		return
+	}
+	used, ok := h.gasUsedBy(caller, failing)
+	if !ok || used < 40 {
+		return
+	}
+	gas := used - 1 - uint64(r.Intn(slack))
+	h.tightMaxFee(caller, failing, gas)
+	if h.try(caller, fmt.Sprint("tight", b, c.Addr.Hex()), failing) == nil {
+		return
+	}
+	h.Stats["contract:out-of-gas-after-send:"+what]++
+	// the calls that succeed, by other senders (and by the same one)
+	others := r.Perm(nU)
+	done := 0
+	for _, o := range others {
+		i := 1 + o
+		if i == caller || done >= 1+r.Intn(2) {
+			continue
+		}
+		switch r.Intn(3) {
+		case 0: // a vote in a multisig
+			for _, m := range h.liveContracts("multisig") {
+				for _, v := range m.Voters {
+					if v == i && done == 0 {
+						y := m.Addr
+						p, _ := attachments.CreateCallContractAttachment("send", w.Addrs[i].Bytes(), big.NewInt(1).Bytes()).ToBytes()
+						if h.contractTx(i, fmt.Sprint("after-tight-vote", b), &types.Transaction{Type: types.CallContractTx, To: &y, Payload: p}) != nil {
+							m.pendAmt = nil // the proposal the voters agreed on is gone
+							done++
+							h.Stats["contract:after-failed:vote"]++
+						}
+					}
+				}
+			}
+		case 1: // the owner of another unlocked time lock moves a coin
+			for _, t := range h.liveContracts("timelock") {
+				if t.Owner == i && !t.Locked && t.Addr != c.Addr && n.App.State.GetBalance(t.Addr).Sign() > 0 && done == 0 {
+					y := t.Addr
+					p, _ := attachments.CreateCallContractAttachment("transfer", w.Addrs[i].Bytes(), big.NewInt(1).Bytes()).ToBytes()
+					if h.contractTx(i, fmt.Sprint("after-tight-transfer", b), &types.Transaction{Type: types.CallContractTx, To: &y, Payload: p}) != nil {
+						done++
+						h.Stats["contract:after-failed:transfer-other"]++
+					}
+				}
+			}
+		default: // somebody deploys a time lock
+			amt := new(big.Int).Mul(fpg, big.NewInt(3000000))
+			if n.App.State.GetBalance(w.Addrs[i]).Cmp(new(big.Int).Add(amt, new(big.Int).Mul(fpg, big.NewInt(1000000)))) > 0 {
+				p, _ := attachments.CreateDeployContractAttachment(embedded.TimeLockContract, nil, nil, u64b(1)).ToBytes()
+				if stx := h.contractTx(i, fmt.Sprint("after-tight-deploy", b), &types.Transaction{Type: types.DeployContractTx, Amount: amt, Payload: p}); stx != nil {
+					h.Contracts = append(h.Contracts, &ContractInfo{Addr: env.ComputeContractAddr(stx, w.Addrs[i]), Kind: "timelock", Owner: i})
+					done++
+					h.Stats["contract:after-failed:deploy"]++
+				}
+			}
+		}
+	}
+	if c.Kind == "timelock" && r.Intn(2) == 0 { // and the same owner again, with plenty of gas
+		p, _ := attachments.CreateCallContractAttachment("transfer", w.Addrs[1+r.Intn(nU)].Bytes(), big.NewInt(1).Bytes()).ToBytes()
+		if h.contractTx(caller, fmt.Sprint("after-tight-same", b), &types.Transaction{Type: types.CallContractTx, To: &x, Payload: p}) != nil {
+			h.Stats["contract:after-failed:same-owner"]++
+		}
+	}
+}
+
+// contractAction offers one contract action.
+func (h *History) contractAction(b int) {
 	n, r, w := h.N, h.R, h.W
 	fpg := n.App.State.FeePerGas()
 	if common.ZeroOrNil(fpg) || len(w.Keys) < 3 {
